@@ -580,6 +580,90 @@ def rule_t4(F):
     return r
 
 
+def int_lits(e):
+    return [n.get("v") for n in hir.walk(e) if n.get("k") == "lit" and n.get("lk") == "int"]
+
+
+def rule_t6(F):
+    """Control-flow constants: the value a condition is switched on and the branch it selects."""
+    r = RuleResult("C01.T6", "control-flow lowering constants: `true` (1) selects then / loop body / the && continuation, || continues on 0; primitive name table", floor=4 + 16)
+    L = "mir::lower::Lowerer::<'r>::"
+    spec = {"if_else": ("lbl_then", 1), "r#while": ("lbl_body", 1)}
+    for fn, (lbl, val) in spec.items():
+        b = F.body(L + fn)
+        if b is None:
+            r.missing(L + fn)
+            continue
+        ld = hir.LocalDefs(b.hir)
+        ok = False
+        found = None
+        for c in hir.nodes(b.hir["value"], "mcall"):
+            if c["m"] != "emit_switch":
+                continue
+            br = c["args"][1]
+            l = hir.res_local(hir.peel_refs(br))
+            if l is not None and ld.get(l) and ld.get(l)[1] is not None:
+                br = ld.get(l)[1]
+            lits = int_lits(br)
+            nm = {n["res"]["name"] for n in hir.walk(br) if n.get("k") == "path" and hir.res_local(n) is not None}
+            found = (lits, sorted(nm))
+            ok = lits == [val] and lbl in nm
+        r.inst("%s switch" % fn, {"fn": fn, "branches": found})
+        if not ok:
+            r.bad(L + fn, "switch constant", relfile(b.file), b.line, "%s must branch to %s when the condition is %d (true); found %s" % (fn, lbl, val, found))
+    for fn, want in (("binop_and", 1), ("binop_or", 0)):
+        b = F.body(L + fn)
+        if b is None:
+            r.missing(L + fn)
+            continue
+        got = None
+        for c in hir.nodes(b.hir["value"], "mcall"):
+            if c["m"] == "shortcircuit_binop":
+                got = int_lits(c["args"][3])
+                ln = [sorted(n["res"]["name"] for n in hir.walk(a) if n.get("k") == "path" and hir.res_local(n) is not None) for a in c["args"][:2]]
+                if ln != [["l"], ["r"]]:
+                    r.bad(L + fn, "operands", relfile(b.file), c["line"], "%s passes %s as (left, right)" % (fn, ln))
+        r.inst("%s evaluates the right operand when the left is" % fn, {"value": got})
+        if got != [want]:
+            r.bad(L + fn, "short-circuit constant", relfile(b.file), b.line, "%s must evaluate its right operand exactly when the left one is %d; found %s" % ("&&" if want else "||", want, got))
+    # primitive name table of the type checker: name <-> Primitive
+    ps = [p for p in F.paths() if p.endswith("typechecker::types::default_types")]
+    if not ps:
+        r.missing("typechecker::types::default_types")
+    else:
+        b = F.body(ps[0])
+        n = 0
+        for t in hir.nodes(b.hir["value"], "tup"):
+            if len(t["elems"]) != 2:
+                continue
+            nm = hir.strip(t["elems"][0])
+            if nm.get("k") != "lit" or nm.get("lk") != "str":
+                continue
+            pr = hir.strip(t["elems"][1])
+            d = None
+            if pr.get("k") == "call":
+                d = hir.last(hir.call_def(pr) or "") + "(" + ",".join(hir.last(str(hir.result_desc(a))) for a in pr["args"]) + ")"
+            elif pr.get("k") == "path" and "Primitive::" in (hir.res_def(pr) or ""):
+                d = hir.last(hir.res_def(pr))
+            if d is None:
+                continue
+            name = nm["v"]
+            m = re.match(r"^([iuf])(\d+)$", name)
+            if m:
+                want = "Float(F%s)" % m.group(2) if m.group(1) == "f" else "Int(%s,I%s)" % ("Signed" if m.group(1) == "i" else "Unsigned", m.group(2))
+            else:
+                want = {"bool": "Bool", "char": "Char", "String": "String", "Asn": "Asn", "IpAddr": "IpAddr", "Prefix": "Prefix"}.get(name)
+            if want is None:
+                continue
+            n += 1
+            r.inst("type name %s" % name, {"name": name, "primitive": d})
+            if d != want:
+                r.bad(b.path, "type name " + name, relfile(b.file), t["line"], "the type named `%s` is defined as Primitive::%s, expected %s" % (name, d, want))
+        if n < 16:
+            r.missing("16 primitive rows in default_types (found %d)" % n)
+    return r
+
+
 def rule_t5(F):
     """Operand evaluation: the left operand's value is fixed before the right operand runs (shared with C08.O4)."""
     from . import c08
@@ -593,4 +677,4 @@ def rule_t5(F):
 
 def rules(ctx):
     F = ctx["F"]
-    return [rule_t1(F), rule_t2(F), rule_t3(F), rule_t4(F), rule_t5(F)]
+    return [rule_t1(F), rule_t2(F), rule_t3(F), rule_t4(F), rule_t5(F), rule_t6(F)]
